@@ -50,6 +50,13 @@ def cases(tier, seed):
                 d.update({"cid": f"c05-{seed}-{k}+{j + 1}", "lib": c["lib"], "writers": c["writers"], "q": c.get("q", 1), "kernOpts": c.get("kernOpts")})
                 c["then"].append(d)
         out.append(c)
+    # right-to-left letters kerned against marks whose Script property is Inherited only, on the second side
+    rng2 = random.Random(seed * 198491317 + 50005)
+    for k in range(12 if tier == "quick" else 120):
+        writer = "kern1" if k % 4 else "kern2"
+        c = layout_gen.rtl_inherited_font(rng2, k, writer)
+        c.update({"cid": f"c05-{seed}-ri{k}", "lib": rng2.choice(["ufoLib2", "defcon"]), "writers": ["kern"]})
+        out.append(c)
     # the variable-font path of both writers: per-master kerning (pairs and exceptions present in some masters only), read
     # back at every master location
     from .. import gen
